@@ -10,6 +10,7 @@ mod props_a;
 mod props_b;
 mod props_c;
 mod props_d;
+mod props_e;
 mod real;
 mod run;
 mod value;
@@ -188,6 +189,10 @@ pub fn rle_str(b: &[u8]) -> String {
     o
 }
 
+pub fn rle_arg_pub(s: &str) -> Vec<u8> {
+    rle_arg(s)
+}
+
 fn rle_arg(s: &str) -> Vec<u8> {
     let mut out = Vec::new();
     if s == "-" {
@@ -237,6 +242,10 @@ fn main() {
             f.extend(f32_midpoint_families(&a));
             run_value(&a, M32, f)
         },
+        "noop" => {
+            println!("RESULT {{\"noop\":true,\"cases\":0,\"calls\":0,\"nviol\":0,\"violations\":[],\"machinery\":[]}}");
+            return;
+        },
         "replay-parse" => replay_parse(&a.rest),
         "replay-c11" => props_b::replay_c11(&a.rest),
         "replay-c17" => props_b::replay_c17(&a.rest),
@@ -245,6 +254,10 @@ fn main() {
         "replay-c13" => props_c::replay_c13(&a.rest),
         "replay-c19" => props_d::replay_c19(&a.rest),
         "c19" => props_d::c19(&a),
+        "replay-c16" => props_e::replay_c16(&a.rest),
+        "replay-c08" => props_e::replay_c08(&a.rest),
+        "c16" => props_e::c16(&a),
+        "c08" => props_e::c08(&a),
         "c12" => props_c::c12(&a),
         "c13" => props_c::c13(&a),
         "c14" => props_c::c14(&a),
